@@ -65,9 +65,85 @@ def compare(label, make_decomposed, make_native, modes, n):
         bad(f"{label} on modes {modes}: decomposed and natively applied operation give different states (max difference {err:.3g})")
 
 
+def embedded_moments(A, total_photons):
+    """documented state of a graph embedding: the pure Gaussian state whose adjacency ('A') matrix is c*A with the scale c fixed
+    by the requested total mean photon number.  Returns N = <a_i^+ a_j>, M = <a_i a_j> (independent numpy calculation)."""
+    n = len(A)
+    sv = np.linalg.svd(A, compute_uv=False)
+    lo, hi = 0.0, (1 - 1e-12) / sv.max()
+    for _ in range(200):
+        c = (lo + hi) / 2
+        tot = np.sum((c * sv) ** 2 / (1 - (c * sv) ** 2))
+        lo, hi = (c, hi) if tot < total_photons else (lo, c)
+    Ac = c * A
+    # sigma_Q = (1 - X AA)^-1 with AA = diag(Ac, Ac*):  N = (1 - Ac* Ac)^-1 - 1 (transposed), M = Ac (1 - Ac* Ac)^-1
+    G = np.linalg.inv(np.eye(n) - Ac.conj() @ Ac)
+    return (G - np.eye(n)).T, Ac @ G
+
+
+def state_moments(prog, n):
+    st = sf.Engine("gaussian").run(prog).state
+    cov = st.cov() / (sf.hbar / 2)
+    X, P, XP = cov[:n, :n], cov[n:, n:], cov[:n, n:]
+    Nm = (X + P + 1j * (XP - XP.T)) / 4 - np.eye(n) / 2
+    Mm = (X - P + 1j * (XP + XP.T)) / 4
+    return Nm, Mm, st.means()
+
+
+def check_embeddings(rng):
+    """GraphEmbed / BipartiteGraphEmbed decomposed and run from vacuum on permuted target modes: photon numbers (the requested
+    mean photon number per mode is respected) and all second moments of the documented state"""
+    A3 = np.array([[0.0, 1.0, 0.4], [1.0, 0.0, 0.7], [0.4, 0.7, 0.0]])
+    B2 = np.array([[0.6, 0.2], [0.3, -0.5]])
+    for mp in (1.0, 0.25, 1.7):
+        for modes in ((0, 1, 2), (2, 0, 1)):
+            EVAL[0] += 1
+            prog = sf.Program(3)
+            with prog.context as q:
+                ops.GraphEmbed(A3, mean_photon_per_mode=mp) | tuple(q[m] for m in modes)
+            try:
+                Nm, Mm, mu = state_moments(prog, 3)
+            except Exception as e:
+                bad(f"GraphEmbed(mean_photon_per_mode={mp}) on modes {modes}: raised {type(e).__name__}: {e}")
+                continue
+            N0, M0 = embedded_moments(A3, 3 * mp)
+            P = np.zeros((3, 3)); P[list(modes), range(3)] = 1          # operator index a -> register mode modes[a]
+            N0r, M0r = P @ N0 @ P.T, P @ M0 @ P.T
+            if abs(np.trace(Nm).real - 3 * mp) > 1e-6:
+                bad(f"GraphEmbed(mean_photon_per_mode={mp}) on modes {modes}: total mean photon number {np.trace(Nm).real:.5f}, requested {3 * mp}")
+            elif not (np.allclose(abs(Nm), abs(N0r), atol=1e-6) and np.allclose(abs(Mm), abs(M0r), atol=1e-6)):
+                bad(f"GraphEmbed(mean_photon_per_mode={mp}) on modes {modes}: second moments differ from the documented state (|N| diff {abs(abs(Nm) - abs(N0r)).max():.3g}, |M| diff {abs(abs(Mm) - abs(M0r)).max():.3g})")
+        for edges in (True, False):
+            for modes in ((0, 1, 2, 3), (1, 3, 0, 2)):
+                EVAL[0] += 1
+                Afull = np.block([[np.zeros((2, 2)), B2], [B2.T, np.zeros((2, 2))]])
+                prog = sf.Program(4)
+                with prog.context as q:
+                    ops.BipartiteGraphEmbed(B2 if edges else Afull, mean_photon_per_mode=mp, edges=edges) | tuple(q[m] for m in modes)
+                try:
+                    Nm, Mm, mu = state_moments(prog, 4)
+                except Exception as e:
+                    bad(f"BipartiteGraphEmbed(mean_photon_per_mode={mp}, edges={edges}) on modes {modes}: raised {type(e).__name__}: {e}")
+                    continue
+                N0, M0 = embedded_moments(Afull, 4 * mp)
+                P = np.zeros((4, 4)); P[list(modes), range(4)] = 1
+                N0r, M0r = P @ N0 @ P.T, P @ M0 @ P.T
+                if abs(np.trace(Nm).real - 4 * mp) > 1e-6:
+                    bad(f"BipartiteGraphEmbed(mean_photon_per_mode={mp}, edges={edges}) on modes {modes}: total mean photon number {np.trace(Nm).real:.5f}, requested {4 * mp}")
+                elif not (np.allclose(abs(Nm), abs(N0r), atol=1e-6) and np.allclose(abs(Mm), abs(M0r), atol=1e-6)):
+                    bad(f"BipartiteGraphEmbed(mean_photon_per_mode={mp}, edges={edges}) on modes {modes}: second moments differ from the documented state (|N| diff {abs(abs(Nm) - abs(N0r)).max():.3g}, |M| diff {abs(abs(Mm) - abs(M0r)).max():.3g})")
+
+
 if __name__ == "__main__":
     rng = np.random.RandomState(seed)
     hb = sf.hbar
+    try:
+        check_embeddings(rng)
+    except Exception:
+        import traceback
+        traceback.print_exc()
+        print("bounded stand-in crashed")
+        sys.exit(3)
     try:
         angles = np.linspace(-np.pi, np.pi, 9 if tier == "quick" else 25)
         for modes in ([0], [2]):
